@@ -28,7 +28,7 @@ if $applies; then
   echo "$out2" | grep -q 'build failed\|cannot use\|undefined:' && changed=builderror
   rm -f "$WT/$demo_file"
   if [ "$SKIP" != "--skip-baseline" ]; then
-    if /tmp/seedkit/check.sh "$WT" 2>&1 | tail -3 | grep -q 'BASELINE OK'; then baseline=ok; else baseline=broken; fi
+    if "$(dirname "$0")/seedkit/check.sh" "$WT" 2>&1 | tail -3 | grep -q 'BASELINE OK'; then baseline=ok; else baseline=broken; fi
   fi
 fi
 python3 - "$SD" "$applies" "$pristine" "$changed" "$baseline" "$touches_test" <<'PY'
